@@ -21,7 +21,7 @@ def _dump(src, scratch, env, logs):
 
 def uci_obligation(mir, src):
     fn = mirfmt.find_fn(mir, r"::to_uci\(")
-    ex = mirfmt.Exec(mirfmt.parse_blocks(fn))
+    ex = mirfmt.Exec(mirfmt.parse_blocks(fn), mir)
     ex.run()
     kinds = mirfmt.enum_variants(os.path.join(src, "src/chess_move/chess_move.rs"), "ChessMove")
     pieces = mirfmt.enum_variants(os.path.join(src, "src/board/piece.rs"), "Piece")
@@ -60,7 +60,7 @@ CASTLE_ROLES = [("castle text", r"^algebraic_castle\(_1 as Castle"), ("check suf
 
 def san_obligation(mir, src):
     fn = mirfmt.find_fn(mir, r"chess_move_to_algebraic_notation\(")
-    ex = mirfmt.Exec(mirfmt.parse_blocks(fn))
+    ex = mirfmt.Exec(mirfmt.parse_blocks(fn), mir)
     ex.run()
     kinds = mirfmt.enum_variants(os.path.join(src, "src/chess_move/chess_move.rs"), "ChessMove")
     castle = kinds.index("Castle")
@@ -84,7 +84,39 @@ def san_obligation(mir, src):
     return ex, recs, []
 
 
+def promo_obligation(mir, src):
+    fn = mirfmt.find_fn(mir, r"get_promotion_chars\(")
+    ex = mirfmt.Exec(mirfmt.parse_blocks(fn), mir)
+    ex.run()
+    kinds = mirfmt.enum_variants(os.path.join(src, "src/chess_move/chess_move.rs"), "ChessMove")
+    promo = kinds.index("PawnPromotion")
+    KIND = "discriminant(_1)"
+
+    def want(assign):
+        if assign.get(KIND) == promo:
+            return [("str", "="), "Piece::to_algebraic_str(PawnPromotionChessMove::promote_to_piece(_1 as PawnPromotion.0))"]
+        return None
+    recs = mirfmt.check_paths(ex.paths, ex, want, {KIND: "move kind " + str(kinds)})
+    missing = [] if any(dict((t, v) for t, op, v in c if op == "eq").get(KIND) == promo for c, _ in ex.paths) else ["PawnPromotion"]
+    return ex, recs, missing
+
+
 NATIVE_TESTS = {
+    "promo": ("src/chess_move/algebraic_notation.rs", '''
+#[cfg(test)]
+mod verif_mir_replay {
+    use super::*;
+    use crate::chess_move::pawn_promotion::PawnPromotionChessMove;
+    use common::bitboard::square::*;
+    #[test]
+    fn promotion_suffix() {
+        for (p, s) in [(Piece::Queen, "=Q"), (Piece::Rook, "=R"), (Piece::Bishop, "=B"), (Piece::Knight, "=N")] {
+            let m = ChessMove::PawnPromotion(PawnPromotionChessMove::new(C7, C8, None, p));
+            assert_eq!(get_promotion_chars(&m), s, "promotion suffix");
+        }
+    }
+}
+''', "verif_mir_replay"),
     "m3": mirloop.NATIVE_TEST,
     "uci": ("src/chess_move/chess_move.rs", '''
 #[cfg(test)]
@@ -166,10 +198,11 @@ def run(prop, src, scratch, env, logs):
             return [rec], [(rec, text, msg)], []
         return [rec], [], [(rec["harness"], "solver counterexample did not reproduce in the native test (all table slots compared)")]
     jobs = [("uci", "mir::to_uci_text", uci_obligation, "ChessMove::to_uci returns origin ++ destination (++ q/r/b/n naming the promotion piece, for each of the four pieces); every promotion piece has a returning path")] if prop == "C19" else \
-           [("san", "mir::san_assembly", san_obligation, "chess_move_to_algebraic_notation returns piece letter ++ disambiguator ++ capture mark ++ destination ++ promotion suffix ++ check suffix (castle: castle text ++ check suffix), each part taken from the right helper on the right arguments")]
+           [("san", "mir::san_assembly", san_obligation, "chess_move_to_algebraic_notation returns piece letter ++ disambiguator ++ capture mark ++ destination ++ promotion suffix ++ check suffix (castle: castle text ++ check suffix), each part taken from the right helper on the right arguments"),
+            ("promo", "mir::promotion_suffix", promo_obligation, "get_promotion_chars of a promotion returns '=' ++ the algebraic letter of the promotion piece (letters themselves: c13_piece_letters)")]
     for which, name, fn, claim in jobs:
         rec = dict(harness=name, kind="obligation", engine="nightly MIR dump -> path enumeration -> z3 (QF strings)", claim=claim,
-                   functions_encoded=["ChessMove::to_uci"] if which == "uci" else ["chess_move_to_algebraic_notation"],
+                   functions_encoded={"uci": ["ChessMove::to_uci"], "san": ["chess_move_to_algebraic_notation"], "promo": ["get_promotion_chars"]}[which],
                    assumptions="callee bodies uninterpreted (their contracts: c19_sq_*, c13_dis_*, c13_parts); loop-free MIR; format template bytes 0x00 / 0xC0 / literal only",
                    mir_dump_s=round(dump_s, 1))
         try:
